@@ -90,17 +90,18 @@ const (
 	FaultKeyNoCert      = "key_without_certificate"
 	FaultCertNoKey      = "certificate_without_key"
 	FaultEmptyCert      = "empty_certificate"
-	FaultGarbageCert    = "garbage_certificate"  // unjudged stress kind
-	FaultCtx            = "context_cancelled"    // the request's context was cancelled when the call was made
-	FaultPartial        = "partial_then_error"   // user lookups: part of the record is delivered, then the call fails
-	FaultTimeout        = "timeout_error"        // the call fails with a timeout-class error that wraps context.DeadlineExceeded
-	FaultPoolClosed     = "pool_closed_error"    // the call fails with an error that wraps context.Canceled
-	FaultNilNil         = "nil_without_error"    // lookups: no record and no error
-	FaultTemporary      = "temporary_error"      // the call fails with a Temporary()/Timeout() error that wraps no context error
-	FaultRecordAndError = "record_and_error"     // lookups: a usable (possibly stale) record comes back together with an error
-	FaultTypedNil       = "typed_nil_and_error"  // AuthRequestByID: a nil pointer inside the interface together with an error
-	FaultPanicString    = "panics_with_a_string" // the storage itself crashes: panic("...") / log.Panicf
-	FaultPanicError     = "panics_with_an_error" // the storage itself crashes: panic(err)
+	FaultGarbageCert    = "garbage_certificate"       // unjudged stress kind
+	FaultCtx            = "context_cancelled"         // the request's context was cancelled when the call was made
+	FaultPartial        = "partial_then_error"        // user lookups: part of the record is delivered, then the call fails
+	FaultTimeout        = "timeout_error"             // the call fails with a timeout-class error that wraps context.DeadlineExceeded
+	FaultPoolClosed     = "pool_closed_error"         // the call fails with an error that wraps context.Canceled
+	FaultNilNil         = "nil_without_error"         // lookups: no record and no error
+	FaultTemporary      = "temporary_error"           // the call fails with a Temporary()/Timeout() error that wraps no context error
+	FaultNoIdentifier   = "stored_without_identifier" // CreateAuthRequest: the record is written, no error, but the request handed back has no id
+	FaultRecordAndError = "record_and_error"          // lookups: a usable (possibly stale) record comes back together with an error
+	FaultTypedNil       = "typed_nil_and_error"       // AuthRequestByID: a nil pointer inside the interface together with an error
+	FaultPanicString    = "panics_with_a_string"      // the storage itself crashes: panic("...") / log.Panicf
+	FaultPanicError     = "panics_with_an_error"      // the storage itself crashes: panic(err)
 )
 
 // PanicMarker is contained in the value of every panic the simulated storage raises.
@@ -573,13 +574,19 @@ func (w *World) CreateAuthRequest(ctx context.Context, req *samlp.AuthnRequestTy
 	w.delay("CreateAuthRequest")
 	snap := Snapshot(req)
 	args := []string{acsURL, binding, relayState, appID}
-	if f := w.fault(ctx, "CreateAuthRequest"); f != "" {
+	noID := false
+	if f := w.fault(ctx, "CreateAuthRequest"); f == FaultNoIdentifier {
+		noID = true
+	} else if f != "" {
 		w.log(Event{Tag: TagOf(ctx), Op: "CreateAuthRequest", Args: args, Res: f, Err: true, Req: snap})
 		return nil, errFor(f)
 	}
 	n := w.nextReq.Add(1)
 	r := &AuthReq{
 		ID: fmt.Sprintf("%sreq%d", w.ReqTag, n), AppID: appID, RelayState: relayState, ACS: acsURL, Binding: binding,
+	}
+	if noID {
+		r.ID = ""
 	}
 	if snap != nil {
 		r.AuthRequestID, r.Issuer, r.Destination = snap.ID, snap.Issuer, snap.Destination
